@@ -28,7 +28,7 @@ EXTENDS Integers, Sequences, FiniteSets, TLC, Json, IOUtils
 Cases == JsonDeserialize("cases.json")
 
 VARIABLES tid,      \* case
-          pc,       \* per thread: "rc" "acq" "wb" "wc" "rel" "rb" "ren" "done" "crash"
+          pc,       \* per thread: "rc" "acq" "dc" "wb" "wc" "rel" "rb" "ren" "done" "crash"
           ip,       \* per thread: index into its render program
           lock,     \* 0 or the holder
           cooked,   \* _v_cooked present
@@ -75,9 +75,16 @@ RC(t) == /\ pc[t] = "rc"
          /\ UNCHANGED <<tid, ip, lock, cooked, blocks, cells, mine, wrote, foreign, saw>>
 
 Acq(t) == /\ pc[t] = "acq" /\ lock = 0
-          /\ lock' = t /\ pc' = [pc EXCEPT ![t] = "wb"]
+          /\ lock' = t /\ pc' = [pc EXCEPT ![t] = "dc"]
           /\ Sched(t, "acq")
           /\ UNCHANGED <<tid, ip, cooked, blocks, cells, mine, wrote, foreign, saw>>
+
+\* cook() first drops the _v_cooked marker (a text that does not compile must not leave the old blocks in charge); the
+\* blocks themselves stay until the new list replaces them
+DC(t) == /\ pc[t] = "dc"
+         /\ cooked' = FALSE /\ pc' = [pc EXCEPT ![t] = "wb"]
+         /\ Sched(t, "dc")
+         /\ UNCHANGED <<tid, ip, lock, blocks, cells, mine, wrote, foreign, saw>>
 
 WB(t) == /\ pc[t] = "wb"
          /\ blocks' = t /\ pc' = [pc EXCEPT ![t] = "wc"]
@@ -137,7 +144,7 @@ Ren(t) == /\ pc[t] = "ren"
              /\ Sched(t, a.op \o ":" \o a.c)
           /\ UNCHANGED <<tid, lock, cooked, blocks, mine>>
 
-Step(t) == RC(t) \/ Acq(t) \/ WB(t) \/ WC(t) \/ Rel(t) \/ RB(t) \/ Ren(t)
+Step(t) == RC(t) \/ Acq(t) \/ DC(t) \/ WB(t) \/ WC(t) \/ Rel(t) \/ RB(t) \/ Ren(t)
 
 AllDone == \A t \in Threads : pc[t] \in {"done", "crash"}
 
@@ -152,7 +159,7 @@ Spec == Init /\ [][Next]_vars
 NoPartialTemplate == \A t \in Threads : pc[t] # "crash"
 Published         == cooked => blocks # 0
 \* only the lock holder writes the compiled state
-LockDiscipline    == \A t \in Threads : pc[t] \in {"wb", "wc", "rel"} => lock = t
+LockDiscipline    == \A t \in Threads : pc[t] \in {"dc", "wb", "wc", "rel"} => lock = t
 \* no thread reads another thread's per-render values
 Isolation         == \A t \in Threads : ~foreign[t]
 \* somebody can always move until everybody is done (deadlock freedom is checked by TLC itself:
